@@ -161,12 +161,7 @@ def check_item_preference(chk) -> None:
     # grouping of the table-level model
     rs = repo.func(T2, "Structure.residues")
     chk.note_function(rs)
-    cols = [norm(s.value) for s in ast.walk(rs.node) if isinstance(s, ast.Assign) and norm(s.targets[0]) == "groupby_cols" and isinstance(s.value, ast.List)]
-    chk.expect(cols[:2] == ["['chainID', 'resSeq', 'iCode']", "['auth_asym_id', 'auth_seq_id']"] and "['label_asym_id', 'label_seq_id']" in cols, "group-columns", rs.where, "residues are grouped by (chain, number, insertion code), author items first", "tertiary_v2 does not group by (chainID, resSeq, iCode) / (auth_asym_id, auth_seq_id[, ins code])", K(rs, "group-cols"), found=cols)
-    apps = [c for c in astq.calls(rs.node, "append") if norm(c) == "groupby_cols.append('pdbx_PDB_ins_code')"]
-    chk.expect(len(apps) == 2, "group-columns", rs.where, "the insertion code joins the grouping key when present", "pdbx_PDB_ins_code is not part of the mmCIF grouping key", K(rs, "group-icode"))
-    gb = [c for c in astq.calls(rs.node, "groupby")]
-    chk.expect(len(gb) == 2 and all("dropna=False" in norm(c) for c in gb), "group-columns", rs.where, "groups with a missing insertion code are kept (dropna=False)", "groupby drops rows whose key has a missing value: residues without insertion code vanish", K(rs, "dropna"))
+    _group_columns(chk, rs)
     # atom name / coordinates
     at = repo.func(T2, "Atom.coordinates")
     chk.note_function(at)
@@ -176,6 +171,77 @@ def check_item_preference(chk) -> None:
     chk.note_function(fa)
     t = norm(fa.node)
     chk.expect("self.atoms['name'] == atom_name" in t and "self.atoms['auth_atom_id'] == atom_name" in t and "self.atoms['label_atom_id'] == atom_name" in t, "atom-by-name", fa.where, "atoms are found by exact name", "tertiary_v2 find_atom does not compare the atom name column with the requested name", K(fa, "by-name"))
+
+
+def _group_columns(chk, rs) -> None:
+    """Grouping key of Structure.residues along every path: (chain, number, insertion code), author items first, missing values kept."""
+    from sa import paths as PT
+
+    problems = []
+    seen_cases = set()
+    n = 0
+    for events, exit_ in PT.paths(rs.node.body):
+        dec = {ev[1]: ev[2] for ev in events if ev[0] == "test"}
+        cols = None
+        filtered = False
+        grouped = None
+        for ev in events:
+            if ev[0] != "stmt":
+                continue
+            st = ev[1]
+            if isinstance(st, ast.Assign) and norm(st.targets[0]) == "groupby_cols":
+                if isinstance(st.value, ast.List) and all(isinstance(e, ast.Constant) for e in st.value.elts):
+                    cols = [e.value for e in st.value.elts]
+                elif flat(st.value) == flat("[col for col in groupby_cols if col in self.atoms.columns]"):
+                    filtered = True
+                else:
+                    problems.append(("error", st, f"`{norm(st)[:70]}` not understood"))
+            for c in ast.walk(st):
+                if isinstance(c, ast.Call) and isinstance(c.func, ast.Attribute):
+                    if c.func.attr in ("append", "extend") and norm(c.func.value) == "groupby_cols" and c.args and cols is not None:
+                        if isinstance(c.args[0], ast.Constant):
+                            cols = cols + [c.args[0].value]
+                        else:
+                            problems.append(("error", st, f"`{norm(c)[:60]}` not understood"))
+                    if c.func.attr == "groupby" and norm(c.func.value) == "self.atoms":
+                        grouped = c
+        if grouped is None:
+            continue
+        n += 1
+        fmt = "PDB" if dec.get("self.format == 'PDB'") else ("mmCIF" if dec.get("self.format == 'mmCIF'") else None)
+        if fmt is None or cols is None or not grouped.args or norm(grouped.args[0]) != "groupby_cols":
+            problems.append(("error", grouped, "path to the groupby call not understood"))
+            continue
+        kw = {k.arg: norm(k.value) for k in grouped.keywords}
+        if kw.get("dropna") != "False":
+            problems.append(("group-columns", grouped, "groupby drops rows whose key has a missing value (dropna is not False): residues without an insertion code vanish", "dropna"))
+        if fmt == "PDB":
+            want = ["chainID", "resSeq", "iCode"]
+            seen_cases.add("PDB")
+        else:
+            auth = dec.get("'auth_asym_id' in self.atoms.columns") is True and dec.get("'auth_seq_id' in self.atoms.columns") is True
+            ins = dec.get("'pdbx_PDB_ins_code' in self.atoms.columns")
+            want = (["auth_asym_id", "auth_seq_id"] if auth else ["label_asym_id", "label_seq_id"]) + (["pdbx_PDB_ins_code"] if ins else [])
+            seen_cases.add(("mmCIF", auth, bool(ins)))
+            if ins is None:
+                problems.append(("group-columns", grouped, f"on the mmCIF path with {'author' if auth else 'label'} items the insertion code column is never consulted: residues that differ only by insertion code are merged", f"icode:{auth}"))
+                continue
+        if cols != want:
+            problems.append(("group-columns", grouped, f"{fmt} ({dict((k, v) for k, v in dec.items() if 'columns' in k)}): residues are grouped by {cols}, expected {want}", f"cols:{fmt}:{want}"))
+    seen = set()
+    hit = False
+    for p in problems:
+        if p[0] == "error":
+            chk.error("group-columns", rs.site(p[1]), p[2])
+            hit = True
+        elif p[3] not in seen:
+            seen.add(p[3])
+            chk.violation("group-columns", rs.site(p[1]), p[2], K(rs, f"group:{p[3]}"))
+            hit = True
+    if not hit:
+        chk.expect(n >= 5 and "PDB" in seen_cases and len(seen_cases) >= 5, "group-columns", rs.where, f"{n} paths: residues are grouped by (chain, number, insertion code), author items first, insertion code whenever the column exists, missing values kept (dropna=False)", "not all format/column cases of the grouping key were found", K(rs, "group-cols"), found=sorted(map(str, seen_cases)))
+        chk.ok("group-columns", rs.where, "the insertion code joins the grouping key when present")
+        chk.ok("group-columns", rs.where, "groups with a missing insertion code are kept (dropna=False)")
 
 
 def check_connectivity(chk) -> None:
@@ -189,25 +255,68 @@ def check_connectivity(chk) -> None:
         p = astq.first_assign(fi.node, "p")
         ok = o3 is not None and norm(o3) == "self.find_atom(\"O3'\")" and p is not None and norm(p) == "next_residue_candidate.find_atom('P')"
         chk.expect(ok, "connect-atoms", fi.where, "link = O3' of this residue to P of the next", "connectivity is not measured from self O3' to the candidate's P", K(fi, "atoms"))
-        rets = [r for r in ast.walk(fi.node) if isinstance(r, ast.Return) and isinstance(r.value, ast.Compare)]
+        from sa.defuse import Inliner
+
+        inl = Inliner(fi.node)
+        rets = [r for r in ast.walk(fi.node) if isinstance(r, ast.Return) and r.value is not None and isinstance(inl.inline(r.value, r, stop=("o3p", "p")), ast.Compare)]
         if len(rets) != 1:
             chk.error("connect-threshold", fi.where, "distance comparison not found")
             continue
-        cmp_ = rets[0].value
-        thr = Folder(repo, m).try_fold(cmp_.comparators[0])
-        sites.append((fi, type(cmp_.ops[0]).__name__, thr, norm(cmp_.left)))
-        chk.expect(thr is not None and abs(thr - c["connect_threshold"]) < 1e-9, "connect-threshold", fi.site(cmp_), f"threshold folds to {thr}", f"connectivity threshold folds to {thr}, the statement says {c['connect_threshold']} A", K(fi, "threshold"), expected=c["connect_threshold"], found=thr)
-        d = astq.first_assign(fi.node, "distance")
+        cmp_ = inl.inline(rets[0].value, rets[0], stop=("o3p", "p"))
+        if len(cmp_.ops) != 1:
+            chk.error("connect-threshold", fi.site(rets[0]), "chained comparison")
+            continue
+        left, right, op = cmp_.left, cmp_.comparators[0], type(cmp_.ops[0]).__name__
+        thr = Folder(repo, m).try_fold(right)
+        if thr is None and Folder(repo, m).try_fold(left) is not None:
+            left, right = right, left
+            thr = Folder(repo, m).try_fold(right)
+            op = {"Lt": "Gt", "Gt": "Lt", "LtE": "GtE", "GtE": "LtE"}.get(op, op)
+        if thr is None:
+            chk.error("connect-threshold", fi.site(rets[0]), f"threshold `{norm(right)}` does not fold")
+            continue
+        sites.append((fi, op, thr, norm(left)))
+        chk.expect(abs(thr - c["connect_threshold"]) < 1e-9, "connect-threshold", fi.site(rets[0]), f"threshold folds to {thr}", f"connectivity threshold folds to {thr}, the statement says {c['connect_threshold']} A", K(fi, "threshold"), expected=c["connect_threshold"], found=thr)
         np_ = "numpy" if m == T1 else "np"
-        chk.expect(d is not None and norm(d) == f"{np_}.linalg.norm(o3p.coordinates - p.coordinates).item()" and norm(cmp_.left) == "distance", "connect-distance", fi.where, "distance = |O3' - P|", "the compared quantity is not the O3'-P distance", K(fi, "distance"))
+        dist_ok = norm(left) in (f"{np_}.linalg.norm(o3p.coordinates - p.coordinates).item()", f"{np_}.linalg.norm(p.coordinates - o3p.coordinates).item()", f"{np_}.linalg.norm(o3p.coordinates - p.coordinates)", f"{np_}.linalg.norm(p.coordinates - o3p.coordinates)")
+        if dist_ok:
+            chk.ok("connect-distance", fi.site(rets[0]), "distance = |O3' - P|")
+        else:
+            chk.violation("connect-distance-form", fi.site(rets[0]), f"the compared quantity `{norm(left)[:80]}` is not the O3'-P distance", K(fi, "distance"))
+        # the comparison is reached only with both atoms present
+        from sa.flow import FlowMap, facts
+
+        fmx = FlowMap(fi.node)
+        fs = facts(fmx.of(rets[0]).guards)
+        have = {nm: any((norm(g.test) == f"{nm} is not None" and g.polarity) or (norm(g.test) == f"{nm} is None" and not g.polarity) for g in fs) for nm in ("o3p", "p")}
+        chk.expect(all(have.values()), "connect-atoms", fi.site(rets[0]), "the distance is taken only when both atoms exist; otherwise not connected", f"the distance is computed without establishing that {[k for k, v in have.items() if not v]} exist", K(fi, "atoms-present"))
     if len(sites) == 2:
         chk.expect(sites[0][1] == sites[1][1] == "Lt" and sites[0][2] == sites[1][2], "connect-agree", sites[1][0].where, "both models use the same threshold and strictness", "the two connectivity tests disagree in threshold or strictness", "connect:agree", found=[(s[1], s[2]) for s in sites])
     # ordering of residues before connectivity in the table-level model
     cr = repo.func(T2, "Structure.connected_residues")
     chk.note_function(cr)
-    srt = [c2 for c2 in astq.calls(cr.node, "sort")]
-    ok = len(srt) == 1 and any(k.arg == "key" and flat(k.value) == flat("lambda r: (r.residue_number, r.insertion_code or '')") for k in srt[0].keywords)
-    chk.expect(ok, "connect-order", cr.where, "residues of a chain are ordered by (number, insertion code) before linking", "the per-chain order is not (residue_number, insertion_code or ''): residues with insertion codes are linked in the wrong order", K(cr, "sort-key"))
+    srt = [c2 for c2 in astq.calls(cr.node, "sort")] + [c2 for c2 in ast.walk(cr.node) if isinstance(c2, ast.Call) and isinstance(c2.func, ast.Name) and c2.func.id == "sorted"]
+    keys = [k.value for c2 in srt for k in c2.keywords if k.arg == "key"]
+    if len(srt) != 1 or len(keys) != 1 or not isinstance(keys[0], ast.Lambda):
+        if not srt:
+            chk.violation("connect-order", cr.where, "the residues of a chain are not sorted before linking: file order decides which residues are neighbours", K(cr, "sort-key"))
+        else:
+            chk.error("connect-order", cr.where, "per-chain sort with a lambda key not found")
+    else:
+        lam = keys[0]
+        r = lam.args.args[0].arg
+        body = lam.body
+        elts = body.elts if isinstance(body, ast.Tuple) else [body]
+        fields = [x.attr for e in elts for x in ast.walk(e) if isinstance(x, ast.Attribute) and isinstance(x.value, ast.Name) and x.value.id == r]
+        if fields[:1] == ["residue_number"] and "insertion_code" in fields[1:2]:
+            none_safe = len(elts) == 2 and norm(elts[1]) in (f"{r}.insertion_code or ''", f"{r}.insertion_code or ' '", f"'' if {r}.insertion_code is None else {r}.insertion_code")
+            chk.expect(none_safe, "connect-order", cr.site(lam), "residues of a chain are ordered by (number, insertion code or '') before linking", f"the sort key `{norm(body)}` compares None insertion codes with strings: TypeError for chains mixing residues with and without insertion codes", K(cr, "sort-key"))
+        elif "residue_number" in fields and "insertion_code" not in fields:
+            chk.violation("connect-order", cr.site(lam), f"the per-chain sort key `{norm(body)}` ignores the insertion code: residues 10, 10A, 10B keep whatever order the grouping produced, so the wrong residues are linked as neighbours", K(cr, "sort-key"), expected="(residue_number, insertion_code or '')", found=norm(body))
+        elif "residue_number" not in fields:
+            chk.violation("connect-order", cr.site(lam), f"the per-chain sort key `{norm(body)}` does not order by residue number", K(cr, "sort-key"), found=norm(body))
+        else:
+            chk.error("connect-order", cr.site(lam), f"sort key `{norm(body)}` not understood")
     seg = [s for s in ast.walk(cr.node) if isinstance(s, ast.If) and norm(s.test) == "prev_residue.is_connected(residue)"]
     chk.expect(len(seg) == 1, "connect-order", cr.where, "consecutive residues are linked iff prev.is_connected(next)", "segments are not built from prev_residue.is_connected(residue)", K(cr, "link"))
 
@@ -267,6 +376,7 @@ def run(chk) -> None:
     )
     chk.trusted = ["CPython ast", "pandas groupby/sort semantics", "wwPDB column table and IUPAC torsion table in spec/"]
     chk.assumptions = ["structures without alternate locations", "label and auth atom/residue names are equal in the quantified tables", "sign of the torsion is C18's business (magnitudes here)"]
+    chk.robust |= {"pdb-slices-agree", "pdb-slices-v2", "pdb-record-filter", "pdb-decode-v2", "int-parsing", "connect-threshold", "connect-agree", "connect-atoms", "chi-atoms", "chi-agree", "backbone-atoms", "pdb-columns", "group-columns", "connect-order", "null-markers-v2"}
     check_reader_agreement(chk)
     check_item_preference(chk)
     check_connectivity(chk)
